@@ -222,7 +222,7 @@ def _run_obligation(ob, units, astinfo, workdir, tier):
             d = ch.get('description', '')
             if ch.get('status') == 'FAILURE' and ('unwinding assertion' in d or 'recursion unwinding' in d):
                 raise Undecided('unwinding bound too small for this tree: %s (%s)' % (d, ch.get('property')))
-        reach_seen = 0; unknown = []
+        reach_seen = 0; unknown = []; vacuous = []
         entry_fn = ob.get('entry', 'main')
         for ch in checks:
             d = ch.get('description', ''); st = ch.get('status')
@@ -234,7 +234,7 @@ def _run_obligation(ob, units, astinfo, workdir, tier):
                 # 'REACH!' markers are mandatory in every run; plain 'REACH' markers must be reached in at
                 # least one heap-shape variant of the obligation (checked by the caller over the group)
                 if st != 'FAILURE' and (d.startswith('REACH!') or not ob.get('group')):
-                    raise Undecided('vacuity: reachability marker not reachable: %s' % d)
+                    vacuous.append(d)
                 continue
             if st == 'FAILURE' and ('unwinding assertion' in d or 'recursion unwinding' in d):
                 raise Undecided('unwinding bound too small for this tree: %s (%s)' % (d, ch.get('property')))
@@ -244,6 +244,9 @@ def _run_obligation(ob, units, astinfo, workdir, tier):
                 unknown.append(ch.get('property'))
             elif st not in ('SUCCESS',):
                 raise Undecided('check %s has status %s' % (ch.get('property'), st))
+        # an unreachable marker next to a refuted check is a consequence of the refutation (e.g. std::abort() reached and
+        # the path cut there); without any refutation it is a vacuity problem
+        if vacuous and not res['failed']: raise Undecided('vacuity: reachability marker not reachable: %s' % vacuous[0])
         # CBMC reports checks downstream of a refuted one as UNKNOWN: harmless next to a refutation, undecided otherwise
         if unknown and not res['failed']: raise Undecided('checks with status UNKNOWN: %s' % unknown[:3])
         if reach_seen < ob.get('min_reach', 1): raise Undecided('vacuity: expected >= %d REACH markers, saw %d' % (ob.get('min_reach', 1), reach_seen))
